@@ -87,6 +87,23 @@ fn parse_opts() -> Opts {
     o
 }
 
+/// Where the simulated disks live: a memory file system when there is one (a killed process leaves
+/// the same files behind there, and the many fdatasync calls of a rebuild cost nothing), else TMPDIR.
+fn scratch_root() -> String {
+    if let Ok(s) = std::env::var("VERIF_SCRATCH") {
+        return s;
+    }
+    let shm = Path::new("/dev/shm");
+    if shm.is_dir() {
+        let probe = shm.join(format!(".verif-probe-{}", std::process::id()));
+        if std::fs::write(&probe, b"x").is_ok() {
+            let _ = std::fs::remove_file(&probe);
+            return "/dev/shm".into();
+        }
+    }
+    std::env::var("TMPDIR").unwrap_or_else(|_| "/tmp".into())
+}
+
 fn harness_fail(msg: &str) -> ! {
     eprintln!("HARNESS-ERROR: {msg}");
     std::process::exit(2);
@@ -466,9 +483,15 @@ fn run_parallel(ctx: &Ctx, hs: &[History], jobs: usize, deadline: Option<Instant
             });
         }
         drop(tx);
+        let started = Instant::now();
+        let mut last = Instant::now();
         for (i, trace, vs) in rx {
             done += 1;
             on(i, &hs[i], trace, vs);
+            if last.elapsed() > Duration::from_secs(30) {
+                last = Instant::now();
+                eprintln!("simctl: progress {done}/{} histories of this phase after {:.0}s", hs.len(), started.elapsed().as_secs_f64());
+            }
         }
     });
     done
@@ -542,7 +565,7 @@ fn histories_for(ctx: &Ctx, o: &Opts, prop: &str, quick: bool) -> Vec<History> {
         }
         "C16" => {
             let perms = if quick { Perms::Reverse } else { Perms::All };
-            for i in 0..n(12, 240) {
+            for i in 0..n(24, 400) {
                 let seed = derive(o.seed, "C16", i as u64);
                 hs.push(gen::c16_random(ctx, &mut Rng::new(seed), seed, perms, i));
             }
@@ -577,7 +600,7 @@ fn cmd_run(o: &Opts) -> i32 {
     if !["C14", "C15", "C16", "C18", "C19"].contains(&prop) {
         harness_fail(&format!("unknown property {prop:?}"));
     }
-    let scratch_root = std::env::var("TMPDIR").unwrap_or_else(|_| "/tmp".into());
+    let scratch_root = scratch_root();
     let scratch = Scratch(PathBuf::from(scratch_root).join(format!("verif-sim-{}", std::process::id())));
     let findings = load_findings(&o.verif);
     println!("simctl: property={prop} tier={} seed={} jobs={} repo={}", o.tier, o.seed, o.jobs, o.repo);
@@ -710,7 +733,32 @@ fn cmd_run(o: &Opts) -> i32 {
             })
             .collect();
         collect(&mut st, &mut found, &randoms);
-        extra = json!({"listed_states": states.len(), "undisturbed_state_probes": probes.len(), "state_x_crash_point_cells": n_cells, "seeded_deeper_histories": n_random,
+        // phase 4: crash points and I/O errors inside tantivy, injected from outside with ptrace
+        let mut n_sys = 0;
+        let strace_ok = std::path::Path::new("/usr/bin/strace").is_file() && std::env::var("VERIF_NO_STRACE").is_err();
+        if strace_ok {
+            let mut sys = Vec::new();
+            let sstates = gen::syscall_states(&ctx);
+            let mut r = Rng::new(derive(o.seed, "C15-sys", 0));
+            for (tag, s) in &sstates {
+                for (call, max, errno) in gen::syscall_sites() {
+                    for when in 1..=max {
+                        for errno in [None, Some(errno.to_string())] {
+                            // quick: a seeded 1-in-60 sample keeps the injector exercised on every change
+                            if quick && !r.chance(1, 60) {
+                                continue;
+                            }
+                            let seed = derive(o.seed, "C15-sys", sys.len() as u64);
+                            sys.push(gen::c15_cell(&ctx, tag, s, vec![Fault::Syscall { call: call.to_string(), when, errno }], subset.clone(), seed));
+                        }
+                    }
+                }
+            }
+            n_sys = sys.len();
+            collect(&mut st, &mut found, &sys);
+        }
+        extra = json!({"syscall_level_histories": n_sys, "syscall_injector": if strace_ok { "strace -f -e inject=<call>:signal=SIGKILL|error=<errno>:when=K around the simnode child" } else { "skipped: strace not available" },
+            "listed_states": states.len(), "undisturbed_state_probes": probes.len(), "state_x_crash_point_cells": n_cells, "seeded_deeper_histories": n_random,
             "exhaustive_over": "every listed state class x every hook point its recovery reaches x kill and fail (all sampled k per multi-hit point); other torn lengths / garbage kinds with a seeded sample of sites"});
     } else {
         let hs = histories_for(&ctx, o, prop, quick);
@@ -876,7 +924,7 @@ fn cmd_replay(o: &Opts) -> i32 {
     let v: Value = serde_json::from_str(&text).unwrap_or_else(|e| harness_fail(&format!("{file}: {e}")));
     let h: History = serde_json::from_value(v.get("history").cloned().unwrap_or(Value::Null)).unwrap_or_else(|e| harness_fail(&format!("{file}: history: {e}")));
     let clause = v.get("clause").and_then(|c| c.as_str()).unwrap_or("").to_string();
-    let scratch_root = std::env::var("TMPDIR").unwrap_or_else(|_| "/tmp".into());
+    let scratch_root = scratch_root();
     let scratch = Scratch(PathBuf::from(scratch_root).join(format!("verif-sim-{}", std::process::id())));
     let ctx = match setup(o, &scratch.0, h.property == "C15") {
         Ok(c) => c,
@@ -926,7 +974,7 @@ fn cmd_replay(o: &Opts) -> i32 {
 /// Run every history twice (different job slots, hence different CPUs and scratch paths) and
 /// compare the canonical traces.
 fn cmd_determinism(o: &Opts) -> i32 {
-    let scratch_root = std::env::var("TMPDIR").unwrap_or_else(|_| "/tmp".into());
+    let scratch_root = scratch_root();
     let scratch = Scratch(PathBuf::from(scratch_root).join(format!("verif-sim-{}", std::process::id())));
     let ctx = setup(o, &scratch.0, false).unwrap_or_else(|e| harness_fail(&e));
     let n = o.runs.unwrap_or(50);
